@@ -5,7 +5,8 @@
 let oracle_c01 (line : string) : string =
   let (c, o) = split_case_obs line in
   if String.length o >= 3 && (String.sub o 0 3 = "CRA" || String.sub o 0 3 = "ERR" || String.sub o 0 3 = "FAU") then "BAD the implementation crashed or the observation is malformed" else
-  let _ = parse_case c in
+  let cs = parse_case c in
+  let reqs = ref (restacks_per_flush cs) in
   let recs = parse_obs o in
   let app = ref app_base in
   let bad = ref None in
@@ -13,10 +14,20 @@ let oracle_c01 (line : string) : string =
       if r.kind = "F" && !bad = None then begin
         app := apply_srecs !app (field r "A");
         let t = parse_tree (field r "T") in
+        let rq = (match !reqs with x :: rest -> reqs := rest; x | [] -> []) in
+        if not (has_reentrant_restack cs) && not (c01_restack_checkb rq (parse_tree (field r "U")) t) then
+          bad := Some (Printf.sprintf "record %d: the z-order after the flush is not the queued restacks applied in request order" k);
         let (nl, nc, g) = parse_grid (field r "G") in
         let Node (ri, _) = t in
-        if iz ri.w_rect.lines <> nl || iz ri.w_rect.cols <> nc then bad := Some (Printf.sprintf "record %d: root size differs from the screen" k)
-        else if not (c01_checkb !app t (zi nl) (zi nc) g) then bad := Some (Printf.sprintf "record %d: screen differs from compose" k)
+        if !bad <> None then ()
+        else if iz ri.w_rect.lines <> nl || iz ri.w_rect.cols <> nc then bad := Some (Printf.sprintf "record %d: root size differs from the screen" k)
+        else begin
+          let dmg = parse_rects (field r "D") in
+          let n = field r "N" in
+          if String.length n <> 3 then bad := Some "flags"
+          else if not (c01_pending_checkb !app t (zi nl) (zi nc) g dmg (n.[0] = '1') (n.[2] = '1')) then
+            bad := Some (Printf.sprintf "record %d: a cell outside the pending damage differs from compose, or damage is pending without needs_expose/later" k)
+        end
       end) recs;
   match !bad with None -> "OK" | Some m -> "BAD " ^ m
 
